@@ -1,0 +1,4 @@
+// Package verifhook contains schedule points used by the external verification
+// harness. Without the "verif" build tag every function is an empty inlinable
+// no-op; with the tag the harness can install handlers.
+package verifhook
